@@ -221,8 +221,14 @@ func (c *Ctx) knownNonNil(v ssa.Value, seen map[ssa.Value]bool) bool {
 			// append to a slice that is not nil
 			return bi.Name() == "append" && len(x.Call.Args) > 0 && c.knownNonNil(x.Call.Args[0], seen)
 		}
-		if _, isSl := x.Type().Underlying().(*types.Slice); isSl && !x.Call.IsInvoke() {
-			// a package function that returns a non-nil slice on every path (Pack() -> pack(): a literal appended to)
+		isRefResult := false
+		switch x.Type().Underlying().(type) {
+		case *types.Slice, *types.Signature, *types.Pointer, *types.Map, *types.Chan:
+			isRefResult = true
+		}
+		if g0 := c.StaticCalleeOf(&x.Call); isRefResult && !x.Call.IsInvoke() && (g0 == nil || !c.isWrapFn(g0)) {
+			// a package function that returns a non-nil slice, closure, pointer, map or channel on every path (Pack() ->
+			// pack(): a literal appended to; withRequestContext: a function literal)
 			if g := c.StaticCalleeOf(&x.Call); g != nil && g.Pkg == c.Pkg && len(g.Blocks) > 0 && nnDepth < 4 {
 				if r, done := nnFuncCache[g]; done {
 					return r
